@@ -147,4 +147,42 @@ def nearestMesh {V : Type} (axes : List (Axis K)) (v : List Nat → V) (vecs : L
 
 end Scalar
 
+/-- `_Interpolator.__call__` turns a mesh grid into a ragged array with
+`np.asarray(x, dtype=object)`.  With the installed NumPy this succeeds unless the sparse mesh
+vectors `(N₀,1,…), (1,N₁,…), …` agree in their leading dimension (`N₀ = 1`) and differ later
+(some `N_j ≠ 1`): then NumPy tries to build a regular array and raises `ValueError`
+("could not broadcast input array").  `lens` are the numbers of points per axis. -/
+def meshInputOk : List Nat → Bool
+  | n0 :: rest => !(n0 == 1 && rest.any (· != 1))
+  | [] => true
+
+/-! ### Value dtypes (`_Interpolator._find_indices`)
+
+Before the node search the evaluation points are cast to the dtype of the VALUES when NumPy
+considers that cast safe (`xi.astype(self.values.dtype, casting='safe')`), otherwise to
+`float`.  For real points the cast is the identity for numeric value types; the table records
+for which value-dtype classes the cast of `float64` points succeeds and what the subsequent
+arithmetic on the points (`xi - cvec[idcs]`) does. -/
+
+inductive VKind
+  | float64 | float32 | complex128 | complex64 | int
+  | strNarrow   -- string dtype of fewer than 32 characters
+  | strWide     -- string dtype of 32 or more characters
+  | object
+  deriving Repr, DecidableEq
+
+inductive CallOutcome | ok | typeError
+  deriving Repr, DecidableEq
+
+/-- `np.can_cast(float64, values.dtype, 'safe')`. -/
+def castSafe : VKind → Bool
+  | .float64 | .complex128 | .object | .strWide => true
+  | .float32 | .complex64 | .int | .strNarrow => false
+
+/-- Outcome of `_find_indices` on `float64` points: after a safe cast to a string dtype the
+points are strings and the normalised distance raises a `TypeError` (`UFuncTypeError`). -/
+def findIndicesOutcome (vk : VKind) : CallOutcome :=
+  if castSafe vk then (if vk = .strWide then .typeError else .ok) else .ok
+
+
 end OdlModel.Interp
